@@ -20,16 +20,19 @@ from . import progs
 
 THEOREMS = [
     "deps_topological", "deps_nodup", "deps_mem_iff", "deps_runtime_first", "deps_main_last",
-    "machine_eq_direct", "init_once_after_imports", "init_suspension_invisible", "no_overtaking",
+    "machine_eq_direct", "init_once_after_imports", "boot_sync_needs_hsync", "init_suspension_invisible", "no_overtaking",
     "var_order", "spec_var_order_respects",
     "file_order", "file_order_any_sort", "init_calls_order", "import_order",
-    "read_link_iff", "linkname_parse", "linkname_split", "linkname_split_dotted_last_counterexample",
+    "read_link_iff", "linkname_parse", "splitExt_spec", "linkname_split", "linkname_split_plain", "linkname_dotted_package",
     "ismethod_value", "ismethod_pointer", "ismethod_func",
-    "linkname_dotted_package_counterexample", "linkname_exported_counterexample", "linkname_resolves_partial",
+    "linkname_resolves", "old_scheme_exported_counterexample", "old_scheme_dotted_counterexample",
 ]
+ENV_THEOREMS = ["runtime_closure_nonblocking", "runtime_closure_has_runtime"]
 
-FINDING_EXPORTED = "C10 linkname reference=exported-bodyless-func call=cross-package result=not-a-function"
-FINDING_DOTTED = "C10 linkname implementation-package=dot-in-last-path-element directive=gc-escaped-%2e result=not-a-function"
+# Both former findings were repaired (fixes/C10-exported-linkname.patch, fixes/C10-linkname-unescape.patch); their witnesses
+# stay as regression cases. A re-appearance is a VIOLATION with these signatures (not listed as known).
+SIG_EXPORTED = "C10 linkname reference=exported-bodyless-func call=cross-package result=not-a-function"
+SIG_DOTTED = "C10 linkname implementation-package=dot-in-last-path-element directive=gc-escaped-%2e result=not-a-function"
 
 # --------------------------------------------------------------------------------------
 # (b) directive texts
@@ -52,7 +55,8 @@ NODE_ALT = {   # alternative renderings with the same lookupTopNode result
 
 EXTS = ["pkg.name", "a/b.name", "a.b/c.name", "a/b.c.name", "name", "a/b", "pkg.T.m", "pkg.(*T).m", "a/b.(*T).m",
         "github.com/x/y.F", "gopkg.in/yaml.v2.F", "a.b.c", ".x", "x.", "a/.b", "/", ".", "a/b/", "a.b/c", "x/y.z/w.(*T).m",
-        "a/b.T.m.n", "runtime.gopark", "math/bits.overflowError", "p%2eq.r"]
+        "a/b.T.m.n", "runtime.gopark", "math/bits.overflowError", "p%2eq.r", "a/b%2ec.name", "gopkg.in/yaml%2ev2.(*T).m",
+        "a%2fb.c", "a/b%2Ec%2e%64.n", "a/b%2.n", "a/b%zz.n", "a%/b.n", "a/b%25c.n", "x%2ey/z.n", "a/b.c%2ed", "%41.%42", "a/b%"]
 MITIGATED = [("reflect", "zeroVal", "value"), ("math/bits", "overflowError", "value"), ("math/bits", "divideError", "value"),
              ("runtime", "anything", "func1"), ("internal/fuzz", "stub", "func1"),
              ("internal/bytealg", "runtime_cmpstring", "func1"), ("os", "net_newUnixFile", "func1"),
@@ -63,7 +67,9 @@ MITIGATED = [("reflect", "zeroVal", "value"), ("math/bits", "overflowError", "va
 def gen_directive(rng, local):
     r = rng.random()
     seps = [" ", "  ", "\t", " \t ", " "]
-    ext = rng.choice(EXTS) if rng.random() < 0.8 else "".join(rng.choice("ab./T()*") for _ in range(rng.randrange(1, 9)))
+    ext = rng.choice(EXTS) if rng.random() < 0.8 else "".join(rng.choice("ab./T()*%2e4") for _ in range(rng.randrange(1, 9)))
+    while re.search(r"%[89a-fA-F][0-9a-fA-F]", ext):      # escapes of bytes >= 0x80 are outside the model (see assumptions)
+        ext = "".join(rng.choice("ab./T()*%2e4") for _ in range(rng.randrange(1, 9)))
     if r < 0.60:
         return "//go:linkname " + rng.choice(["", " ", "\t"]) + local + rng.choice(seps) + ext + rng.choice(["", " ", "\t"])
     if r < 0.66:
@@ -138,7 +144,14 @@ def ln_kind(op, ans):
 # (a) generated multi-package programs
 # --------------------------------------------------------------------------------------
 
-DIRS = ["pa", "pb", "pc", "x.y/pd", "d/e/pf", "zz/pg", "a.b/c.d/ph", "pi", "aa/pj"]
+DIRS = ["pa", "pb", "pc", "x.y/pd", "d/e/pf", "zz/pg", "a.b/c.d/ph", "pi", "aa/pj", "pk.v2", "q.r/pl.v3.x"]
+
+
+def gc_spelling(path):
+    """the import path as the gc toolchain spells it inside a symbol name: dots of the LAST element are written %2e"""
+    head, sep, last = path.rpartition("/")
+    return head + sep + last.replace(".", "%2e")
+
 FILES = ["a.go", "b.go", "m.go", "z.go", "aa.go", "k_1.go", "a_b.go", "zz.go", "b2.go", "c.go"]
 
 HELPERS = """
@@ -179,7 +192,7 @@ def gen_program(rng, mod, size=None, edges=None):
     With `edges` (pairs (i, j), i imports j, j < i, index size-1 = main) the import graph is exactly that one."""
     n = size or rng.choice([2, 3, 3, 4, 5, 6, 7])
     dirs = rng.sample(DIRS, n - 1)
-    pkgs = [Pkg(i, mod + "/" + d, d.split("/")[-1]) for i, d in enumerate(dirs)]
+    pkgs = [Pkg(i, mod + "/" + d, d.split("/")[-1].split(".")[0]) for i, d in enumerate(dirs)]
     mainp = Pkg(n - 1, mod, "main")
     pkgs.append(mainp)
     for i, p in enumerate(pkgs):
@@ -282,12 +295,12 @@ def gen_program(rng, mod, size=None, edges=None):
         direction = "forward" if a_imports_b else ("reverse" if b_imports_a else "unrelated")
         if kind == "func":
             bf["src"].append("func impl%d(x int) int { return %d*1000 + x }\n" % (lid, ident))
-            af["src"].append("//go:linkname ref%d %s.impl%d\nfunc ref%d(x int) int\n" % (lid, b.path, lid, lid))
+            af["src"].append("//go:linkname ref%d %s.impl%d\nfunc ref%d(x int) int\n" % (lid, gc_spelling(b.path), lid, lid))
             call = "ref%d(34)" % lid
             sym = "%s.impl%d" % (b.path, lid)
         elif kind == "nvalue":
             bf["src"].append("type N%d int\n\nfunc (n N%d) m%d(x int) int { return %d*1000 + int(n)*10 + x }\n" % (lid, lid, lid, ident))
-            af["src"].append("type RN%d int\n\n//go:linkname ref%d %s.N%d.m%d\nfunc ref%d(n RN%d, x int) int\n" % (lid, lid, b.path, lid, lid, lid, lid))
+            af["src"].append("type RN%d int\n\n//go:linkname ref%d %s.N%d.m%d\nfunc ref%d(n RN%d, x int) int\n" % (lid, lid, gc_spelling(b.path), lid, lid, lid, lid))
             call = "ref%d(RN%d(3), 4)" % (lid, lid)
             sym = "%s.N%d.m%d" % (b.path, lid, lid)
         else:
@@ -302,7 +315,7 @@ def gen_program(rng, mod, size=None, edges=None):
                 af["src"].append("type R%d struct{ V int }\n" % lid)
             tname = "(*T%d)" % lid if ptr else "T%d" % lid
             af["src"].append("//go:linkname ref%d %s.%s.m%d\nfunc ref%d(t %s%s, x int) int\n" % (
-                lid, b.path, tname, lid, lid, "*" if ptr else "", rt))
+                lid, gc_spelling(b.path), tname, lid, lid, "*" if ptr else "", rt))
             call = "ref%d(%s%s{V: 3}, 4)" % (lid, "&" if ptr else "", rt)
             sym = "%s.%s.m%d" % (b.path, tname, lid)
         af["linkname"] = True
@@ -312,7 +325,7 @@ def gen_program(rng, mod, size=None, edges=None):
         ninit = sum(1 for d in af["decls"] if d == "i") - 1
         af["src"].append("func init() {\n\tprintln(\"B\", \"I:%s/%s#%d\")\n\tprintln(\"L\", \"ref%d@%s\", %s)\n\tprintln(\"E\", \"I:%s/%s#%d\", 0)\n}\n" % (
             a.path, af["name"], ninit, lid, a.name, call, a.path, af["name"], ninit))
-        a.links.append({"id": lid, "ref": "%s.ref%d" % (a.path, lid), "comment": "//go:linkname ref%d %s" % (lid, sym),
+        a.links.append({"id": lid, "ref": "%s.ref%d" % (a.path, lid), "comment": "//go:linkname ref%d %s" % (lid, gc_spelling(b.path) + sym[len(b.path):]),
                         "sym": sym, "expect": ident * 1000 + 34, "key": "ref%d@%s" % (lid, a.name), "kind": kind, "dir": direction})
     # main function
     mf = rng.choice(mainp.files)
@@ -514,6 +527,10 @@ def structure_tie(chk, g, r, op):
         chk.add_case("structure", o, nontrivial=True, kindkey="structure:" + o.split()[1])
         if a != b:
             chk.add_tie_break("emitted-structure", json.dumps({"op": o[:2000], "prog": json.loads(op)["desc"]}), a, b)
+    closure = C.run_driver("C10", ["link closure runtime %s" % graph])[0].split(",")
+    for p in pk:
+        if p["path"] in closure and p.get("blocking_inits", 0) != 0:
+            chk.add_tie_break("runtime-closure-nonblocking", p["path"], "%d suspending initialisers" % p["blocking_inits"], "0")
     for p in pk:
         chk.add_case("structure", "reset:" + p["path"] + g["mod"], nontrivial=False, kindkey="structure:self-reset")
         if not p["self_reset"]:
@@ -629,8 +646,9 @@ def build_error_tie(chk, scratch):
 
 
 def finding_exported(chk, scratch):
-    """Witness of the recorded finding: an EXPORTED bodyless function declared through go:linkname is never assigned to
-    `$pkg`, so a call from another package fails (`pa.Rev is not a function`), whereas Go calls the implementation."""
+    """Regression witness of a repaired defect: an EXPORTED bodyless function declared through go:linkname was never
+    assigned to `$pkg`, so a call from another package failed (`pa.Rev is not a function`), whereas Go calls the
+    implementation."""
     gopath = os.path.join(scratch, "gopath")
     mod = "gvq%dexp" % chk.seed
     files = {
@@ -644,17 +662,17 @@ def finding_exported(chk, scratch):
     js = progs.observe_js(r["runs"]["plain"])
     op = json.dumps({"witness": "exported linkname reference called from another package", "files": files})
     chk.add_case("finding", "exported-linkname", kindkey="finding:exported-linkname")
-    # model: the same-package call resolves, the cross-package call does not (Lean: linkname_exported_counterexample)
+    # model: both calls resolve (Lean: linkname_resolves)
     model = C.run_driver("C10", ["ln call same", "ln call cross"])
     impl = ["resolved" if "L local 9005" in js[0] else "unresolved", "resolved" if "L Rev 9005" in js[0] else "unresolved"]
     spec = ["resolved" if "L local 9005" in nat[0] else "unresolved", "resolved" if "L Rev 9005" in nat[0] else "unresolved"]
     chk.compare("linkname-call", ["ln call same", "ln call cross"], impl, model, spec=spec,
-                signature=lambda o, a, c: FINDING_EXPORTED if o == "ln call cross" and a == "unresolved" and "is not a function" in r["runs"]["plain"].get("stderr", "") else None,
+                signature=lambda o, a, c: SIG_EXPORTED if o == "ln call cross" and a == "unresolved" and "is not a function" in r["runs"]["plain"].get("stderr", "") else None,
                 kind=lambda o, a: "linkname-call:" + o.split()[2])
 
 
 def finding_dotted(chk, scratch):
-    """Witness of the second recorded finding: the implementation lives in a package whose LAST path element contains a
+    """Regression witness of the second repaired defect: the implementation lives in a package whose LAST path element contains a
     dot (`<mod>/pk.v2`). gc requires the escaped spelling `pk%2ev2` in the directive; GopherJS does not unescape it (and
     splits the plain spelling at the wrong dot), so the reference stays undefined and the call fails at run time."""
     gopath = os.path.join(scratch, "gopath")
@@ -672,8 +690,58 @@ def finding_dotted(chk, scratch):
     impl = ["resolved" if "L f 9005" in js[0] else "unresolved"]
     spec = ["resolved" if "L f 9005" in nat[0] else "unresolved:" + nat[1][:100]]
     chk.compare("linkname-call", ops, impl, C.run_driver("C10", ops), spec=spec,
-                signature=lambda o, a, c: FINDING_DOTTED if a == "unresolved" and "is not a function" in r["runs"]["plain"].get("stderr", "") else None,
+                signature=lambda o, a, c: SIG_DOTTED if a == "unresolved" and "is not a function" in r["runs"]["plain"].get("stderr", "") else None,
                 kind=lambda o, a: "linkname-call:dotted-package")
+
+
+def runtime_closure_facts(chk, scratch):
+    """Regenerated fact behind the hypothesis `hsync` of init_once_after_imports: compile a program with the real compiler,
+    take the import lists of the linked archives, let the MODEL compute the dependency closure of `runtime`, and record for
+    each of its packages how many initialisers exist and how many contain a suspension point. Written to
+    lean/GV/Generated/RuntimeInit.lean; GV.Props.C10Env proves `all zero` by `decide` on every run."""
+    gopath = os.path.join(scratch, "gopath")
+    mod = "gvq%dfacts" % chk.seed
+    files = {"main.go": "package main\n\nimport \"runtime\"\n\nvar v = f()\n\nfunc f() int { runtime.Gosched(); return 1 }\n\nfunc main() { println(v) }\n"}
+    r = run_prog_jobs([{"id": "facts", "mod": mod, "files": files, "variants": ["plain"], "native": False, "timeout": 300}], gopath, par=1)[0]
+    pk = r.get("pkgs") or []
+    if not pk:
+        raise RuntimeError("facts program did not compile: %s" % json.dumps(r["runs"])[:1000])
+    graph = ";".join("%s=%s" % (p["path"], ",".join(p["imports"] or [])) for p in pk)
+    closure = C.run_driver("C10", ["link closure runtime %s" % graph])[0].split(",")
+    by = {p["path"]: p for p in pk}
+    facts = [(c, by[c]["init_items"], by[c]["blocking_inits"]) for c in closure if c in by]
+    # the probe program's own blocking initialiser must be seen by the extraction (sanity of the criterion)
+    if by[mod]["blocking_inits"] < 1:
+        raise RuntimeError("extraction does not recognise a blocking initialiser: %s" % by[mod])
+    gdir = os.path.join(C.LEAN, "GV", "Generated")
+    os.makedirs(gdir, exist_ok=True)
+    src = ("/-! GENERATED by checks/c10.py from the archives of a program compiled from the working tree; do not edit. -/\n"
+           "namespace GV.Generated.RuntimeInit\n"
+           "/-- (package in the dependency closure of `runtime`, number of its initialisers, number of them that contain a suspension point) -/\n"
+           "def facts : List (String × Nat × Nat) := [%s]\n"
+           "end GV.Generated.RuntimeInit\n") % ", ".join('("%s", %d, %d)' % f for f in facts)
+    path = os.path.join(gdir, "RuntimeInit.lean")
+    if not os.path.exists(path) or open(path).read() != src:
+        with C.Lock("lake"):
+            open(path, "w").write(src)
+    chk.extra["runtime_closure_facts"] = [{"package": a, "initialisers": b, "suspending": c} for a, b, c in facts]
+    return facts
+
+
+def env_proofs(chk, tier, facts):
+    envp = C.check_proofs("C10", ENV_THEOREMS, tier, module="GV.Props.C10Env")
+    chk.proof.obligations += envp.obligations
+    chk.proof.forbidden += envp.forbidden
+    if envp.build_ok and not envp.failed:
+        chk.proof.discharged += envp.discharged
+        chk.proof.axioms.update(envp.axioms)
+    else:
+        for t in envp.obligations:
+            chk.proof.failed.append((t, "GV.Props.C10Env does not check against the regenerated facts %s: %s" % (
+                json.dumps(facts)[:400], [f for f in envp.failed][:2])))
+        chk.proof.build_log = envp.build_log
+        chk.notes.append("an initialiser in the dependency closure of `runtime` can suspend (or the extraction changed): the synchronous "
+                         "`$packages[\"runtime\"].$init()` of the emitted program is no longer justified")
 
 
 # --------------------------------------------------------------------------------------
@@ -728,7 +796,11 @@ def run(tier, seed):
                    "go/types Info.InitOrder (the model uses the Go specification's selection rule; validated against native Go on every program)",
                    "hand-written models GV.Model.Link / GV.Model.Linkname tied to the code by the runs below",
                    "native Go 1.23 as the reference for values, per-file init order and linkname targets"]
-    chk.assumptions = ["the packages in the dependency closure of `runtime` have no blocking initialisers (their $init is called synchronously)",
+    chk.assumptions = ["the hypothesis `hsync` of init_once_after_imports (no initialiser in the dependency closure of `runtime` suspends; the emitted "
+                       "program calls runtime.$init() synchronously) is NOT assumed: it is a regenerated fact (GV/Generated/RuntimeInit.lean, from "
+                       "the compiled archives: `$blk` in InitCode / Decl.Blocking per initialiser) proved all-zero by GV.Props.C10Env on every run, "
+                       "and re-checked on the archives of every generated program",
+                       "url.PathUnescape is modelled for escapes of ASCII bytes only (the generator emits no %80..%ff)",
                        "import graphs are acyclic (go/build rejects cycles)",
                        "unicode.IsSpace is modelled on Latin-1 only",
                        "cross-package order is compared with native Go only as the partial order `after imports` (Go >= 1.21 sorts by path)"]
@@ -737,6 +809,9 @@ def run(tier, seed):
     C.build_gvh("gvh_c10")
     scratch = C.scratch("c10")
     try:
+        facts = runtime_closure_facts(chk, scratch)
+        env_proofs(chk, tier, facts)
+        C.log("[C10] regenerated facts checked %.0fs" % (time.time() - chk.t0))
         # (b) directives
         n = 60000 if tier == "thorough" else 4000
         jobs, ops, _ = gen_linkname_files(chk.rng, n)
